@@ -1011,7 +1011,7 @@ static CMDResult CMD_EntryAdr(Boolean Negate, char const* Arg) {
         return CMDOK;
     } else {
         EntryAdr = ConstLongInt(Arg, &ok, 10);
-        if ((!ok) || (EntryAdr > 0xffff)) {
+        if (!ok) {
             return CMDErr;
         }
         EntryAdrPresent = True;
